@@ -101,6 +101,8 @@ Record da_in := {
   di_state : Da.dstate; di_bank : bank;
   di_nact : Z;          (* bonded validators (ValidatorsPowerStoreIterator + IsBonded) *)
   di_sft : Z;           (* slash_fault_threshold, raw dec *)
+  di_sfr : option Z;    (* slash_fraction as LegacyNewDecFromStr parses the stored string; None = it does
+                           not parse: HandleSlashEpoch's LegacyMustNewDecFromStr panics *)
   di_cc : Z;            (* challenge counter *)
   di_slash_epoch : Z    (* params.SlashEpoch *)
 }.
@@ -125,7 +127,10 @@ Definition da_end (clamped : bool) (height now : Z) (i : da_in) : res (Da.dstate
   (* height % SlashEpoch == 0 -> HandleSlashEpoch: threshold = ceil(sft * challenges).Uint64() *)
   if di_slash_epoch i =? 0 then Panic
   else if (height mod di_slash_epoch i =? 0) then
-    match Tally.slash_threshold (di_sft i) (di_cc i) with Some _ => Ok r | None => Panic end
+    match di_sfr i with
+    | None => Panic
+    | Some _ => match Tally.slash_threshold (di_sft i) (di_cc i) with Some _ => Ok r | None => Panic end
+    end
   else Ok r.
 
 (* ------------------------------------------------------------------ share-class end blocker *)
@@ -231,6 +236,25 @@ Definition da_params_ok_found (p : Da.params) (sft slash_epoch : Z) : bool :=
   (0 <? Da.pr_cp p) && (0 <? Da.pr_pp p) && (0 <? Da.pr_rej p) && (0 <? Da.pr_ver p).
 Definition da_params_ok (p : Da.params) (sft slash_epoch : Z) : bool :=
   da_params_ok_found p sft slash_epoch && (Da.pr_rf p <=? RF_MAX).
+(* one field of a custom module's Params as its Validate treats it: [v] = the value as the real
+   parser reads the offered string / number (None = does not parse).
+   kind 1: fraction in [0,1] (da challenge_threshold, slash_fault_threshold, slash_fraction;
+           liquidityincentive staking_reward_ratio; liquiditypool withdraw_fee_rate,
+           swap_treasury_tax_rate; fee burn_ratio)
+   kind 2: fraction in [0,1) (swap interface_fee_rate)
+   kind 3: positive integer / duration (da slash_epoch and the four periods; liquidityincentive
+           epoch_blocks; shareclass reward_period)
+   kind 4: da replication_factor: 0 < x <= 2^32 *)
+Definition field_ok (kind : Z) (v : option Z) : bool :=
+  match v with
+  | None => false
+  | Some x =>
+      if kind =? 1 then (0 <=? x) && (x <=? P)
+      else if kind =? 2 then (0 <=? x) && (x <? P)
+      else if kind =? 3 then 0 <? x
+      else if kind =? 4 then (0 <? x) && (x <=? RF_MAX)
+      else false
+  end.
 (* x/liquidityincentive Params.Validate: epoch blocks > 0, 0 <= staking reward ratio <= 1 *)
 Definition li_params_ok (epoch_blocks ratio : Z) : bool :=
   (0 <? epoch_blocks) && (0 <=? ratio) && (ratio <=? P).
